@@ -87,6 +87,9 @@ Section Cell.
   (* a point farther than 60 degrees (haversine > 1/4) from the centre of the cell's face is outside, -1 (fixed
      defect D15: beyond the neighbouring faces the projection is a meaningless extrapolation) *)
   Definition cell_contains_point (c : cell) (lon lat : T) : option T :=
+    (* the world cell contains every point (fixed defect D16; get_pentagon itself returns Err for it, which
+       this model of get_pentagon cannot express: every caller tests the resolution first) *)
+    if (resolution c <? 0)%Z then Some (z2T 1) else
     let '(theta, phi) := from_lon_lat OP lon lat in
     proj <-? dodec_forward OP theta phi (origin_id c) ;;
     let '(t2, p2) := axis_of OP (nth (Z.to_nat (origin_id c)) origin_axis ((0, 0), (0, 0))%Z) in
